@@ -24,9 +24,9 @@ REPO = "/repo"
 
 
 class Ctx(object):
-  __slots__ = ("fid", "fn", "ret_k", "exc_k", "brk_k", "cont_k", "cur_exc", "depth")
+  __slots__ = ("fid", "fn", "ret_k", "exc_k", "brk_k", "cont_k", "cur_exc", "depth", "gen")
 
-  def __init__(self, fid, fn, ret_k, exc_k, brk_k=None, cont_k=None, cur_exc=None, depth=0):
+  def __init__(self, fid, fn, ret_k, exc_k, brk_k=None, cont_k=None, cur_exc=None, depth=0, gen=None):
     self.fid = fid
     self.fn = fn
     self.ret_k = ret_k
@@ -35,9 +35,10 @@ class Ctx(object):
     self.cont_k = cont_k
     self.cur_exc = cur_exc
     self.depth = depth
+    self.gen = gen
 
   def replace(self, **kw):
-    c = Ctx(self.fid, self.fn, self.ret_k, self.exc_k, self.brk_k, self.cont_k, self.cur_exc, self.depth)
+    c = Ctx(self.fid, self.fn, self.ret_k, self.exc_k, self.brk_k, self.cont_k, self.cur_exc, self.depth, self.gen)
     for k_, v in kw.items():
       setattr(c, k_, v)
     return c
@@ -483,7 +484,7 @@ class Interp(object):
             return None
           data.append(v)
         new_heap[oid] = HObj(o1.kind, o1.cls, data, o1.escaped or o2.escaped)
-      elif o1.kind in ("obj", "dict", "set"):
+      elif o1.kind in ("obj", "dict", "set", "gen"):
         if list(o1.data.keys()) != list(o2.data.keys()):
           if o1.kind != "obj" or set(o1.data.keys()) != set(o2.data.keys()):
             if o1.kind == "obj":
@@ -921,6 +922,8 @@ class Interp(object):
     if spec is not None:
       return self.loop_with_invariant(node, spec, st, ctx, k)
     def got_iter(st2, itv):
+      if isinstance(itv, SymRange):
+        return self.for_symrange(node, itv, st2, ctx, k)
       def got_items(st3, items):
         if items is None:
           return
@@ -935,6 +938,23 @@ class Interp(object):
         return step(0, st3)
       return self.iter_values(itv, st2, ctx, got_items, node, live_ok=True)
     return self.ev(node.iter, st, ctx, got_iter)
+
+  def for_symrange(self, node, rng, st, ctx, k):
+    """for over range(0, stop) with a symbolic stop and no invariant: unrolled like a `while j < stop` (terminates only
+    when the path condition bounds stop; otherwise the unroll limit makes the unit undecided)"""
+    stop = rng.stop
+    def step(j, st2):
+      if j > self.unroll_limit:
+        raise Unsupported("loop over range() with a symbolic bound at %s needs an invariant (unroll limit)" % self.where(ctx, node))
+      t = concretize(zint(stop) > j) if is_sym(stop) else (j < stop)
+      def body(st3):
+        c2 = ctx.replace(brk_k=k, cont_k=lambda s: step(j + 1, s))
+        return self.assign(node.target, j, st3, ctx,
+                           lambda st4: self.ex(node.body, 0, st4, c2, lambda s: step(j + 1, s)))
+      def done(st3):
+        return self.ex(node.orelse, 0, st3, ctx, k)
+      return self.branch(t, st2, body, done, "for-range")
+    return step(0, st)
 
   def for_live(self, node, live, st, ctx, k):
     """for over a mutable list object: index iteration as CPython does it"""
@@ -1678,12 +1698,13 @@ class Interp(object):
     if c.realfn is not None and c.qualname not in self.functions_seen:
       end = getattr(fnode, "end_lineno", fnode.lineno)
       self.functions_seen[c.qualname] = (c.realfn.__code__.co_filename, fnode.lineno, end)
-    if any(isinstance(n, (ast.Yield, ast.YieldFrom, ast.Await)) for n in ast.walk(fnode)
-           if not isinstance(n, (ast.Lambda,))) and not isinstance(fnode, ast.Lambda):
-      # generator functions: a call creates a generator object; not modelled
-      for n in ast.walk(fnode):
-        if isinstance(n, (ast.Yield, ast.YieldFrom)):
-          raise Unsupported("generator function %s" % c.qualname)
+    ys = _own_yields(fnode) if not isinstance(fnode, ast.Lambda) else []
+    if ys:
+      # generator functions: a call creates a generator object whose body runs on next()/send()/throw()
+      for n in ys:
+        if isinstance(n, (ast.YieldFrom, ast.Await)):
+          raise Unsupported("generator function %s uses yield from / await" % c.qualname)
+      return k(st, self.make_generator(c, fnode, fid, st, ctx))
     depth = (ctx.depth + 1) if ctx is not None else 0
     if isinstance(fnode, ast.Lambda):
       cctx = Ctx(fid, c, None, ctx.exc_k if ctx else None, None, None, None, depth)
@@ -1705,6 +1726,88 @@ class Interp(object):
       s.frames.pop(fid, None)
       ctx.exc_k(s, e)
 
+  # ------------------------------------------------------------------
+  # generators: the body is run in continuation-passing style anyway, so a suspended generator is the continuation
+  # of its `yield` expression kept in a heap object; next()/send()/throw() store the caller's continuations in that
+  # object and resume it.  Semantics assumed: PEP 255 / 342 (send, throw, close, StopIteration carrying the return
+  # value); `yield from` is not modelled.
+  # ------------------------------------------------------------------
+  def make_generator(self, c, fnode, fid, st, ctx):
+    import types as _types
+    depth = (ctx.depth + 1) if ctx is not None else 0
+    ref = st.alloc("gen", _types.GeneratorType, {"state": "created", "resume": None, "k": None, "exc_k": None,
+                                                 "name": c.qualname})
+    def finish(s, e):
+      d = s.obj(ref).data
+      ek = d["exc_k"]
+      d["state"] = "done"
+      d["resume"] = None
+      d["k"] = None
+      d["exc_k"] = None
+      s.frames.pop(fid, None)
+      return ek(s, e)
+    def ret_k(s, v):
+      return finish(s, ExcVal(StopIteration, (v,) if v is not None else ()))
+    def exc_k(s, e):
+      if e.cls is StopIteration:
+        # PEP 479
+        e = ExcVal(RuntimeError, ("generator raised StopIteration",), e.where)
+      return finish(s, e)
+    cctx = Ctx(fid, c, ret_k, exc_k, None, None, None, depth, gen=ref)
+    def start(s, sent, exc):
+      if exc is not None:
+        return finish(s, exc)
+      if sent is not None:
+        return finish(s, ExcVal(TypeError, ("can't send non-None value to a just-started generator",)))
+      return self.ex(fnode.body, 0, s, cctx, lambda s2: ret_k(s2, None))
+    st.obj(ref).data["resume"] = GenCont(start)
+    return ref
+
+  def gen_resume(self, ref, sent, exc, st, ctx, k, node):
+    """next(g) / g.send(v) / g.throw(e): run the generator until its next yield (-> k(st, yielded)) or its end
+    (-> StopIteration / the escaping exception at the caller)"""
+    d = st.obj(ref).data
+    if d["state"] == "running":
+      return self.raise_exc(st, ctx, ValueError, "generator already executing", node)
+    if d["state"] == "done":
+      if exc is not None:
+        return ctx.exc_k(st, exc)
+      return self.raise_exc(st, ctx, StopIteration, None, node)
+    r = d["resume"]
+    if isinstance(r, Union):
+      return self.split(r, st, lambda st2, r2: self._gen_go(ref, r2, sent, exc, st2, ctx, k))
+    return self._gen_go(ref, r, sent, exc, st, ctx, k)
+
+  def _gen_go(self, ref, r, sent, exc, st, ctx, k):
+    d = st.obj(ref).data
+    d["state"] = "running"
+    d["resume"] = None
+    d["k"] = GenCont(k)
+    d["exc_k"] = ctx.exc_k
+    return r.fn(st, sent, exc)
+
+  def ev_Yield(self, node, st, ctx, k):
+    if ctx.gen is None:
+      raise Unsupported("yield outside an interpreted generator at %s" % self.where(ctx, node))
+    ref = ctx.gen
+    def got(st2, v):
+      d = st2.obj(ref).data
+      caller = d["k"]
+      def resume(s, sent, exc):
+        if exc is not None:
+          return ctx.exc_k(s, exc)
+        return k(s, sent)
+      d["state"] = "suspended"
+      d["resume"] = GenCont(resume)
+      d["k"] = None
+      d["exc_k"] = None
+      if isinstance(caller, Union):
+        return self.split(caller, st2, lambda s3, c3: c3.fn(s3, v))
+      return caller.fn(st2, v)
+    if node.value is None:
+      return got(st, None)
+    return self.ev(node.value, st, ctx, got)
+
   def frame_captured(self, st, fid, retval=None):
     """is the frame still referenced by a live closure? (conservative: any closure defined in it)"""
     fr = st.frames.get(fid)
@@ -1714,6 +1817,26 @@ class Interp(object):
       if isinstance(v, Closure) and v.fid == fid:
         return True
     return False
+
+
+_own_yields_cache = {}
+
+
+def _own_yields(fnode):
+  """yield / yield from / await nodes of this function itself (not of functions nested in it)"""
+  r = _own_yields_cache.get(id(fnode))
+  if r is None:
+    r = []
+    stack = list(ast.iter_child_nodes(fnode))
+    while stack:
+      n = stack.pop()
+      if isinstance(n, (ast.FunctionDef, ast.AsyncFunctionDef, ast.Lambda, ast.ClassDef)):
+        continue
+      if isinstance(n, (ast.Yield, ast.YieldFrom, ast.Await)):
+        r.append(n)
+      stack.extend(ast.iter_child_nodes(n))
+    _own_yields_cache[id(fnode)] = r
+  return r
 
 
 class SliceVal(object):
